@@ -21,9 +21,10 @@ Restart: start() is called again after the loop ended (at top level, from a call
 the previous start() returned, and -- with stop() -- from inside the looped function, now=False): every
 clause applies afresh to the new run (its own start time, interval, now flag, count sum), and the
 Deferred of every earlier start() must have fired exactly once, with its own result, for good.
-False-alarm guards: interval 0 is not generated ("positive interval"); reset() is only issued while
-a call is scheduled (it is a documented no-op otherwise) and restarts the boundary grid at the reset
-time, the count-sum rule is then not asserted (statement does not define it); stop() is only issued
+False-alarm guards: interval 0 is not generated ("positive interval"); reset() while a call is scheduled
+restarts the boundary grid at the reset time; reset() while an invocation is in progress (from inside the
+function, or while its Deferred is unfired) has no effect, as the code and docstring have it: the next call
+is scheduled from that call's completion on the unchanged grid; the count-sum rule is then not asserted (statement does not define it); stop() is only issued
 while running (it asserts otherwise); a stop() while the function's Deferred is outstanding fires
 start()'s Deferred when that Deferred fires (with its failure if it fails).
 """
@@ -44,7 +45,8 @@ SHARDS = {"quick": 4, "thorough": 16}
 FLOORS = {"calls": 5000, "cadence_checks": 3000, "count_sum_checks": 1000, "counts_gt_1": 200, "deferred_awaited": 500,
           "final_by_stop": 300, "final_by_failure": 300, "stop_inside_call": 50, "stop_while_outstanding": 50,
           "resets": 100, "post_final_advances": 500, "exact_boundary_advances": 200,
-          "restarts_at_top_level": 200, "restarts_from_deferred_callback": 200, "restarts_inside_call": 10, "blocking_calls": 500}
+          "restarts_at_top_level": 200, "restarts_from_deferred_callback": 200, "restarts_inside_call": 10, "blocking_calls": 500, "resets_while_call_in_flight": 300,
+          "resets_inside_call": 300}
 READY = True
 U = 16
 MAX_CALLS = 300  # per case; legitimate cases make at most one call per advance (< 80)
@@ -79,6 +81,8 @@ def gen_case(rng):
         if b[0] in ("ret", "raise") and rng.random() < 0.08:
             # the function itself takes time: the clock moves on while it runs (it "blocks", possibly across boundaries)
             b.append(["block", rng.choice([1, iv // 2 or 1, iv, iv + 1, 2 * iv + rng.randrange(iv), rng.randrange(1, 5 * iv)])])
+        if rng.random() < 0.05:
+            b.append("reset")  # reset() from inside the function, before it returns (no call is scheduled then: no effect)
         if rng.random() < 0.03:
             b.append("stop")
             if rng.random() < 0.35 and (b[0] == "ret" or (b[0] == "dnow" and b[1])):
@@ -205,6 +209,13 @@ class Monitor:
                 self.events.append(("blocks", idx, x[1]))
                 self.now += x[1]
                 self.clock.advance(x[1] / U)  # completion time of this call is the time after blocking
+        if "reset" in beh[1:] and self.running and not self.bad:
+            self.stat("resets_inside_call")
+            self.events.append(("reset-inside", idx))
+            try:
+                self.lc.reset()  # model: nothing changes, the next call is scheduled from this call's completion as usual
+            except BaseException as e:  # noqa: BLE001
+                self.fail("unexpected-exception", "reset() inside the function raised %s: %s" % (type(e).__name__, e))
         if "stop" in beh[1:] and self.running and not self.bad:
             self.stat("stop_inside_call")
             self.events.append(("stop-inside", idx))
@@ -455,6 +466,12 @@ class Monitor:
             self.stat("restarts_at_top_level")
             self.guarded("restart", self.do_restart, s[1], s[2], "top")
         elif k == "reset":
+            if self.running and self.inflight is not None:
+                # reset() while the function's Deferred is unfired: no call is scheduled, so it has no effect on the
+                # running call; the next call is scheduled from the call's completion as usual (model unchanged)
+                self.events.append(("reset-in-flight", self.now))
+                self.stat("resets_while_call_in_flight")
+                return self.guarded("reset", self.lc.reset)
             if not self.running or self.inflight is not None or self.expected_B is None:
                 return
             self.events.append(("reset", self.now))
